@@ -15,7 +15,7 @@
 (*  - the jump-ahead form used by the judge equals n single ticks           *)
 (***************************************************************************)
 EXTENDS Audio
-CONSTANTS MaxTicks
+CONSTANTS MaxTicks, InitShapes, InitTP
 VARIABLES R, ch, n, hs, since, nsince, wrote
 
 vars == <<R, ch, n, hs, since, nsince, wrote>>
@@ -23,7 +23,7 @@ Reg(tp, np, ep, shape, r7, amp) ==
   [i \in 1..16 |-> CASE i = 1 -> tp % 256 [] i = 2 -> 240 + (tp \div 256) [] i = 7 -> 224 + np [] i = 8 -> 192 + r7
                      [] i = 9 -> amp [] i = 12 -> ep [] i = 14 -> 16 * 5 + shape [] OTHER -> 0]
 
-Init == /\ R \in {Reg(tp, np, ep, sh, r7, amp) : tp \in {0, 1, 3, 4}, np \in {0, 2}, ep \in {1, 2}, sh \in 0..15, r7 \in {63, 62}, amp \in {16 + 7}}
+Init == /\ R \in {Reg(tp, np, ep, sh, r7, amp) : tp \in InitTP, np \in {0, 2}, ep \in {1, 2}, sh \in InitShapes, r7 \in {63, 62}, amp \in {16 + 7}}
         /\ ch = ChipInit /\ n = 0 /\ hs = 0 /\ since = 0 /\ nsince = 0 /\ wrote = 0
 
 \* one tick; history: hs = half steps of the envelope since the restart, since / nsince = ticks since the tone A output /
